@@ -210,6 +210,8 @@ func inVSetOpt(ex *Exec, fr *frame, args []Value) Value {
 		ex.X.PanicIsViolation = v != 0
 	case "maxLoop":
 		ex.X.MaxLoop = v
+	case "watchReads":
+		ex.watchReads = v != 0
 	default:
 		ex.abort("unsupported", "vSetOpt "+name)
 	}
